@@ -292,6 +292,13 @@ def mirror_check(c, prop_file, monitors, what, quick=(40, 30), thorough=(600, 40
         c.fail_obligation("harness-run: the real mirror died during a generated history",
                           (m.group(1) if m else "exit %s" % cr["rc"])[:300] + "\n" + cr["stderr"][-1200:],
                           {"batch_seed": cr["batch_seed"], "how": "bin/h_mirror -seed %d -cases 5 -ops %d %s" % (cr["batch_seed"], nops, " ".join(["-replay"] + list(extra)))})
+    for k in cases:
+        if k.get("restart_failed"):
+            c.report("restart-failed", "the real mirror did not come up again after a crash: %s" % k["restart_failed"].split(" @@ ")[-1][:200],
+                     {"batch_seed": k["batch_seed"], "batch_case": k["batch_idx"],
+                      "crashed_operation": k.get("failed_op", "")[:1500],
+                      "steps_before": [{"op": op[:600], "impl_result": res} for op, res, _ in k["steps"][-6:]],
+                      "how": "bin/h_mirror -replay -crashes -seed %d -cases %d -ops 40" % (k["batch_seed"], k["batch_idx"] + 1)})
     model_ok = tok
     if tok:
         okm, mlog = c.coq_make(["Model/MirrorObs.vo", "Monitors/MirrorM.vo"])
